@@ -288,13 +288,35 @@ Proof.
   - destruct (parse_all (parse_top n0) (split_toks ";" (t :: body))); [|discriminate]. cbn in P. inversion P; subst. eauto.
 Qed.
 
+Lemma parse_all_threads : forall n chunks ops, parse_all (parse_top n) chunks = Some ops -> threads_ok n ops.
+Proof.
+  intros n chunks. induction chunks as [|c cs IH]; intros ops P; cbn [parse_all] in P.
+  - inversion P. constructor.
+  - destruct (parse_top n c) as [[t o]|] eqn:T; [|discriminate].
+    destruct (parse_all (parse_top n) cs) as [r|]; [|discriminate]. inversion P; subst. constructor; [|apply IH; reflexivity].
+    unfold parse_top in T. destruct c as [|t0 rest]; [discriminate|].
+    destruct (parse_nat t0) as [t'|]; [|discriminate]. destruct (parse_sop rest); [|discriminate].
+    destruct (Nat.ltb t' n) eqn:L; [|discriminate]. inversion T; subst. cbn. apply Nat.ltb_lt. exact L.
+Qed.
+
+Lemma parsed_threads : forall l cf n ops, parse_case l = Some (cf, n, ops) -> threads_ok n ops.
+Proof.
+  intros l cf n ops P. unfold parse_case in P. destruct (split_toks "|" l) as [|hdr [|body [|x y]]]; try discriminate.
+  destruct (parse_cfg hdr) as [[cf0 n0]|]; [|discriminate].
+  destruct body.
+  - inversion P; subst. constructor.
+  - destruct (parse_all (parse_top n0) (split_toks ";" (t :: body))) as [r|] eqn:A; [|discriminate]. cbn in P. inversion P; subst.
+    eapply parse_all_threads. exact A.
+Qed.
+
 Theorem model_meets_spec_wire : forall l : list tok, parse_case l <> None -> case_oracle_fresh l ->
   run_spec l (run_model l) = [].
 Proof.
   intros l H F. unfold run_spec, run_model, case_oracle_fresh in *. destruct (parse_case l) as [[[cf n] ops]|] eqn:P; [|contradiction].
   rewrite observation_roundtrip.
   destruct (parsed_cfg l cf n ops P) as (e & g & cs & E).
-  apply model_meets_spec_oracles; [|exact F]. subst cf. destruct g; [apply cfg_of_ok | apply cfg_of_default_ok].
+  apply model_meets_spec_oracles; [| exact (parsed_threads l cf n ops P) | exact F].
+  subst cf. destruct g; [apply cfg_of_ok | apply cfg_of_default_ok].
 Qed.
 
 (* with a scripted generator the assumption is empty *)
